@@ -83,7 +83,8 @@ def run(ctx):
         e1util.replay(ctx, binp, [("TestVerifWireCorr", "wire", lambda o: True)], wire_oracle)
         return
     else:
-        run_wire(ctx, binp, corr_broken, ctx.budget(8000, 60000))
+        # round 10 budget: thorough 60000 -> 40000 cases (C07 thorough ran 728-926 s on a loaded box; target <= 8 min)
+        run_wire(ctx, binp, corr_broken, ctx.budget(8000, 40000))
     # --- end-to-end oracle (network API + white-box quiescence only) ----------------------------
     ebin = ctx.go_test_binary("nsqd", ["e1/e1_helpers_test.go", "e1/e2e_test.go", "e1/pubsub_test.go"], "e1e2e")
     if not ebin:
@@ -95,7 +96,8 @@ def run(ctx):
     # --- audit A2: which transport the output goes to when IDENTIFY is sent more than once -------------
     run_stack(ctx, corr_broken)
     # --- engine E9: the real go-diskqueue against its model (discharges the disk-queue assumption) -----
-    e9_dq.leg(ctx, corr_broken)
+    # thorough: 300 op sequences x 120 steps here (C05 and E9 run the same leg with 600; round 10 budget)
+    e9_dq.leg(ctx, corr_broken, thorough_n=300)
     # --- search phase ---------------------------------------------------------------------------
     if (ctx.broken_ties or corr_broken) and not ctx.violations:
         limit = ctx.budget(60, 600)
@@ -107,7 +109,7 @@ def run(ctx):
                 break
             ctx.seed = seed0 + 1000 * s
             if binp:
-                run_wire(ctx, binp, [], ctx.budget(8000, 60000), search=True)
+                run_wire(ctx, binp, [], ctx.budget(8000, 40000), search=True)
             if ebin and not ctx.violations and time.time() < t_end - 20:
                 run_e2e(ctx, ebin, [], combos=ctx.budget(24, 0), n=40, search=True)
             if ctx.violations:
